@@ -135,6 +135,10 @@ class Ctx:
         scn = first.get("scn") or []
         if not scn:
             raise ToolError("replay file has no scenario")
+        # create_send_all is not a function of its arguments alone (hash-set iteration order inside the categorizer): the recorded
+        # scenario is run 40 times in one process, every run under another order
+        if first.get("driver") == "sendall":
+            scn = [dict(x) for _ in range(40) for x in scn]
         p = self.write_scn(scn, "replay_scn.ndjson")
         run = self.drive(first["driver"], scn=p, n=0, flags=[f for f in first.get("flags", ()) if f not in ("--plutus", "--minada")])
         em = self.validate(first["validator"], run, shards=1)
